@@ -1,12 +1,95 @@
 /-
-  C05 — property theorems only; helper lemmas live in Nutree/Lemmas.
+  C05 — save/load round trip of the native file format.
+  Property theorems only; helper lemmas live in Nutree/Lemmas (SerialList, SerialAdd, SerialRound,
+  SerialMaps, SerialLoad).
 -/
 import Nutree.Model.Serial
+import Nutree.Lemmas.SerialRound
+import Nutree.Lemmas.SerialLoad
 namespace Nutree.C05
-open Nutree T Nutree.Ser
+open Nutree T Nutree.Ser Nutree.Flt.Spec
 
-/-- the header written by save names generator and format version (constants regenerated from the source). -/
-theorem header_generator (o : Opts) (h : ∀ k, (k, v) ∈ o.fileMeta → k ≠ "$generator" ∧ k ≠ "$format_version") :
-    True := trivial
+/-- the per-node hypotheses of the round trip, spelled out (they are bundled as `Ser.NodeOK`):
+* the mappers are inverse on the node's entry: `deser` recovers the data object from what `ser`
+  made of the dict, and `ser` leaves `data_id` (and `kind` in a typed tree) alone;
+* a plain string is resolved to the node's data object (`strAtom n.name = n.data` for string nodes);
+* the node carries a kind iff the tree is typed. -/
+theorem nodeOK_of {typed : Bool} {ser : T → Fields → Option Fields} {deser : Fields → DRes}
+    {strAtom : String → Atom} {n : T}
+    (hser : ∀ d, makeEntry typed n = .dict d →
+      deser ((ser n d).getD d) = DRes.atom n.data ∧
+      lookupF ((ser n d).getD d) "data_id" = lookupF d "data_id" ∧
+      (typed = true → lookupF ((ser n d).getD d) "kind" = lookupF d "kind"))
+    (hstr : n.data.isStr = true → strAtom n.name = n.data)
+    (hkind : n.kind.isSome = typed) : NodeOK typed ser deser strAtom n :=
+  ⟨hser, fun s hs => by obtain ⟨_, _, rfl, h⟩ := makeEntry_str hs; exact hstr h, hkind⟩
+
+/-- R1. **Reading back the written list rebuilds the forest** — clones included.
+
+Source forest `tops` with sibling-unique data ids at every level (top level included); `typed`
+arbitrary (a node carries a kind iff `typed`); mappers inverse on the entries; string nodes
+resolved by `strAtom`; nodes with equal data ids carry equal data objects (`DataById`: that is what
+"clone" means — a reference copies the data object of the first occurrence); no key/value maps;
+`isClone` arbitrary.  Then `fromList` succeeds on what `toList` wrote, and the rebuilt tree has the
+same shape, order, data objects, data ids and kinds (`shL`) and is well-formed.
+
+Not needed (and not assumed): distinctness of the source's node ids; the default-id rule
+`n.did = n.data.hid` for entries without `data_id` holds by construction of `makeEntry`. -/
+theorem fromList_toList (typed : Bool) (strAtom : String → Atom) (deser : Fields → DRes)
+    (ser : T → Fields → Option Fields) (isClone : T → Bool) (tops : List T) (rows : List (Nat × Payload))
+    (hser : ∀ n ∈ flatL tops, ∀ d, makeEntry typed n = .dict d →
+      deser ((ser n d).getD d) = DRes.atom n.data ∧
+      lookupF ((ser n d).getD d) "data_id" = lookupF d "data_id" ∧
+      (typed = true → lookupF ((ser n d).getD d) "kind" = lookupF d "kind"))
+    (hstr : ∀ n ∈ flatL tops, n.data.isStr = true → strAtom n.name = n.data)
+    (hkind : ∀ n ∈ flatL tops, n.kind.isSome = typed)
+    (htop : (tops.map T.did).Nodup) (hsib : ∀ x ∈ flatL tops, (x.kids.map T.did).Nodup)
+    (hclone : DataById (flatL tops))
+    (h : toList typed {} ser isClone tops = some rows) :
+    ∃ t', fromList typed strAtom deser rows = .ok t' ∧ shL t'.root.kids = shL tops ∧ WF t' := by
+  obtain ⟨t', h1, h2, h3, _⟩ := fromList_toList_core (strAtom := strAtom) (deser := deser)
+    (fun n hn => nodeOK_of (hser n hn) (hstr n hn) (hkind n hn)) htop hsib hclone h
+  exact ⟨t', h1, h2, h3⟩
+
+/-- R2. **`load ∘ save`.**  Under the hypotheses of R1, for options whose maps are valid for every
+written entry (`Ser.ValidFor`: `Ser.ValidMaps o` for every dict entry, see C12 L5) and whose
+`file_meta` does not overwrite `$generator`, `$key_map`, `$value_map` (`Ser.MetaOK`): loading the
+document that `save` wrote succeeds, rebuilds the forest (same shape, order, data objects, data
+ids, kinds; well-formed), and hands exactly the stored header to the caller (`file_meta`). -/
+theorem load_save (typed : Bool) (strAtom : String → Atom) (deser : Fields → DRes)
+    (ser : T → Fields → Option Fields) (o : Opts) (tops : List T) (doc : JVal)
+    (hser : ∀ n ∈ flatL tops, ∀ d, makeEntry typed n = .dict d →
+      deser ((ser n d).getD d) = DRes.atom n.data ∧
+      lookupF ((ser n d).getD d) "data_id" = lookupF d "data_id" ∧
+      (typed = true → lookupF ((ser n d).getD d) "kind" = lookupF d "kind"))
+    (hstr : ∀ n ∈ flatL tops, n.data.isStr = true → strAtom n.name = n.data)
+    (hkind : ∀ n ∈ flatL tops, n.kind.isSome = typed)
+    (htop : (tops.map T.did).Nodup) (hsib : ∀ x ∈ flatL tops, (x.kids.map T.did).Nodup)
+    (hclone : DataById (flatL tops))
+    (hvalid : ValidFor typed o ser tops) (hmeta : MetaOK o)
+    (hs : saveJ typed o ser tops = some doc) :
+    ∃ t', loadJ typed strAtom deser doc = .ok (t', header o) ∧ shL t'.root.kids = shL tops ∧ WF t' :=
+  load_save_core (fun n hn => nodeOK_of (hser n hn) (hstr n hn) (hkind n hn)) htop hsib hclone hvalid hmeta hs
+
+/-- R3. **The options do not matter for the result**: two valid option sets — whatever key map, value
+map and file meta — give documents that load to the same forest. -/
+theorem options_irrelevant (typed : Bool) (strAtom : String → Atom) (deser : Fields → DRes)
+    (ser : T → Fields → Option Fields) (o₁ o₂ : Opts) (tops : List T) (doc₁ doc₂ : JVal)
+    (hser : ∀ n ∈ flatL tops, ∀ d, makeEntry typed n = .dict d →
+      deser ((ser n d).getD d) = DRes.atom n.data ∧
+      lookupF ((ser n d).getD d) "data_id" = lookupF d "data_id" ∧
+      (typed = true → lookupF ((ser n d).getD d) "kind" = lookupF d "kind"))
+    (hstr : ∀ n ∈ flatL tops, n.data.isStr = true → strAtom n.name = n.data)
+    (hkind : ∀ n ∈ flatL tops, n.kind.isSome = typed)
+    (htop : (tops.map T.did).Nodup) (hsib : ∀ x ∈ flatL tops, (x.kids.map T.did).Nodup)
+    (hclone : DataById (flatL tops))
+    (hv₁ : ValidFor typed o₁ ser tops) (hm₁ : MetaOK o₁) (hs₁ : saveJ typed o₁ ser tops = some doc₁)
+    (hv₂ : ValidFor typed o₂ ser tops) (hm₂ : MetaOK o₂) (hs₂ : saveJ typed o₂ ser tops = some doc₂) :
+    ∃ t₁ t₂, loadJ typed strAtom deser doc₁ = .ok (t₁, header o₁) ∧
+      loadJ typed strAtom deser doc₂ = .ok (t₂, header o₂) ∧
+      shL t₁.root.kids = shL t₂.root.kids ∧ WF t₁ ∧ WF t₂ := by
+  obtain ⟨t₁, h1, h2, h3⟩ := load_save typed strAtom deser ser o₁ tops doc₁ hser hstr hkind htop hsib hclone hv₁ hm₁ hs₁
+  obtain ⟨t₂, h4, h5, h6⟩ := load_save typed strAtom deser ser o₂ tops doc₂ hser hstr hkind htop hsib hclone hv₂ hm₂ hs₂
+  exact ⟨t₁, t₂, h1, h4, h2.trans h5.symm, h3, h6⟩
 
 end Nutree.C05
